@@ -177,6 +177,44 @@ def _stored_names(body):
     return out
 
 
+def fold_returns(stmts):
+    """Rewrite early bare returns into if/else: `if c: A; return` + rest  ->  `if c: A else: rest` (and the
+    mirrored form); a trailing bare return is dropped.  Works on cloned statements (no parent links)."""
+    out = []
+    for i, st in enumerate(stmts):
+        rest = stmts[i + 1:]
+        if isinstance(st, ast.Return) and st.value is None:
+            return out      # anything after an unconditional return is dead
+        if isinstance(st, ast.If):
+            body, orelse = fold_returns(st.body), fold_returns(st.orelse)
+            b_ret = bool(st.body) and _ends_with_return(st.body)
+            o_ret = bool(st.orelse) and _ends_with_return(st.orelse)
+            if b_ret or o_ret:
+                tail = fold_returns(rest)
+                nb = body if b_ret else body + tail
+                no = orelse if o_ret else orelse + tail
+                new = ast.If(test=st.test, body=nb or [ast.Pass()], orelse=no)
+                ast.copy_location(new, st)
+                ast.fix_missing_locations(new)
+                out.append(new)
+                return out
+            new = ast.If(test=st.test, body=body or [ast.Pass()], orelse=orelse)
+            ast.copy_location(new, st)
+            out.append(new)
+            continue
+        out.append(st)
+    return out
+
+
+def _ends_with_return(stmts):
+    last = stmts[-1]
+    if isinstance(last, ast.Return) and last.value is None:
+        return True
+    if isinstance(last, ast.If) and last.orelse:
+        return _ends_with_return(last.body) and _ends_with_return(last.orelse)
+    return False
+
+
 def _inlinable(helper):
     """A private helper can be spliced in place of its call statement: straight parameter list, no value
     returned, no return except as the last statement, no yield / nested scope."""
@@ -191,8 +229,12 @@ def _inlinable(helper):
             if isinstance(n, (ast.Yield, ast.YieldFrom, ast.FunctionDef, ast.AsyncFunctionDef, ast.Lambda,
                               ast.ClassDef, ast.Global, ast.Nonlocal)):
                 return False
-            if isinstance(n, ast.Return) and (n.value is not None or n is not body[-1]):
+            if isinstance(n, ast.Return) and n.value is not None:
                 return False
+            if isinstance(n, ast.Return) and any(isinstance(a, (ast.For, ast.While, ast.Try, ast.With))
+                                                 for a in astx.ancestors(n) if a is not helper.node
+                                                 and helper.node in list(astx.ancestors(a))):
+                return False    # only returns under plain if/else chains are folded
     return bool(body)
 
 
@@ -241,9 +283,9 @@ def inline_helpers(repo, fn):
                 bound[pn] = h.node.args.defaults[k]
         if bound is None:
             continue
-        body = astx.strip_doc(h.node.body)
-        if isinstance(body[-1], ast.Return):
-            body = body[:-1]
+        body = fold_returns(clone(astx.strip_doc(h.node.body)))
+        if not body or any(isinstance(n, ast.Return) for st2 in body for n in ast.walk(st2)):
+            continue
         ren, pre = {}, []
 
         def fresh(nm):
@@ -399,6 +441,21 @@ class Model:
                     return e.args[0], True
         return e, False
 
+    def root_defs(self, name, at):
+        """Reaching definitions of a local, looking through in-place updates (`x op= y` keeps the storage)."""
+        out, seen, todo = set(), set(), [at]
+        while todo:
+            n = todo.pop()
+            for d in self.rd.defs(n, name):
+                if d in seen:
+                    continue
+                seen.add(d)
+                if d.kind == 'stmt' and isinstance(d.ast, ast.AugAssign) and isinstance(d.ast.target, ast.Name):
+                    todo.append(d)
+                else:
+                    out.add(d)
+        return out
+
     def def_kinds(self, e, at):
         """Set of kinds over the reaching definitions of a Name ({'view'}, {'copy'}, both) or None."""
         return self.arr_kind(e, at, want_set=True)
@@ -411,11 +468,9 @@ class Model:
             return self.arr_kind(e.value, at, depth + 1, want_set)
         if isinstance(e, ast.Name) and depth < 4:
             kinds = set()
-            for d in self.rd.defs(at, e.id):
+            for d in self.root_defs(e.id, at):
                 if d.kind != 'stmt' or not isinstance(d.ast, ast.Assign) or len(d.ast.targets) != 1 or \
                         not isinstance(d.ast.targets[0], ast.Name):
-                    if d.kind == 'stmt' and isinstance(d.ast, ast.AugAssign):
-                        continue    # in-place update keeps the storage
                     return None
                 v = d.ast.value
                 if isinstance(v, ast.BinOp) and any(isinstance(x, ast.Name) and x.id == e.id
@@ -1122,7 +1177,7 @@ def _getitem_view(repo):
 def result(repo, out):
     """The stored result is a fresh copy of the storage that received the arithmetic, taken after it."""
     m = model(repo)
-    muts = m.viol_writes(('array', 'local'))
+    muts = [w for w in m.viol_writes(('array', 'local')) if m.scale_key(w.operand, w.node) is None]
     if not muts:
         raise AnalysisError(f'{m.fn.ident}: no violation arithmetic found')
     lsq = repo.func(DRIVER, 'Driver._compute_con_viol')
@@ -1152,9 +1207,12 @@ def result(repo, out):
         hops = 0
         while isinstance(e, ast.Name) and m.def_kinds(e, at) == {'copy'} and hops < 4:
             # a temporary that holds a private copy: judge the expression that made the copy
-            v, d = m.defval(e.id, at)
-            if v is None or (isinstance(v, ast.BinOp) and any(isinstance(x, ast.Name) and x.id == e.id
-                                                              for x in (v.left, v.right))):
+            roots = m.root_defs(e.id, at)
+            d = next(iter(roots)) if len(roots) == 1 else None
+            if d is None or d.kind != 'stmt' or not isinstance(d.ast, ast.Assign) or len(d.ast.targets) != 1:
+                break
+            v = d.ast.value
+            if isinstance(v, ast.BinOp) and any(isinstance(x, ast.Name) and x.id == e.id for x in (v.left, v.right)):
                 break
             e, at, hops = v, d, hops + 1
         inner, copied = m.peel_copy(e)
@@ -1402,6 +1460,14 @@ def scale(repo, out):
                 nbad += 1
                 continue
         else:
+            if w.space == 'local':
+                tn = w.stmt.target if isinstance(w.stmt, ast.AugAssign) else w.stmt.targets[0]
+                if not (isinstance(tn, ast.Name) and any(
+                        isinstance(m.peel_copy(s_.value)[0], ast.Name) and m.peel_copy(s_.value)[0].id == tn.id
+                        for s_ in m.stores)):
+                    out.unsure(m.fn, w.stmt, 'a private array is scaled but it is not (recognisably) what is stored')
+                    nbad += 1
+                    continue
             p = m.same_iteration_path([w.node], [x.node for x in muts])
             if p is not None:
                 out.bad(m.fn, w.stmt, 'the values are scaled before the bounds (model units) are subtracted',
@@ -1632,7 +1698,7 @@ def lsq(repo, out):
             else:
                 out.unsure(L.fn, st, f'residual element `{astx.src(elt)}` not recognised')
                 verdicts.append('unsure')
-        if verdicts and all(v == 'ok' for v in verdicts):
+        if all(v == 'ok' for v in verdicts):
             out.ok(L.fn, rp['stmt'], 'residual elements are the flattened violation arrays, unmodified')
     # freshness
     run = L.g.calling('_run_solve_nonlinear')
@@ -1749,101 +1815,175 @@ def _expand_iter(L, e, at, outer):
     return out
 
 
-def residual_parts(L):
-    """How _compute_con_viol builds the flat residual.
+def _const_seq(it):
+    if isinstance(it, (ast.Tuple, ast.List)) and it.elts and all(isinstance(x, ast.Constant) for x in it.elts):
+        return [x.value for x in it.elts]
+    return None
 
-    Returns dict(stmt, parts=[(dict expr, node)], elts=[(element expr, loop var, stmt)], filtered) for
-      return np.concatenate([f(v) for v in <iterables>])                     (comprehension form)
-      acc = []; for d in (A, B): for v in d.values(): acc.append(f(v)); return np.concatenate(acc)
-      acc = []; for v in A.values(): acc.append(..); for v in B.values(): ...   (loop forms, also .extend(gen))
-    or None when the construction is not recognised.
+
+def array_seq(L, e, at, st, depth=0):
+    """An expression denoting an ordered sequence of violation arrays ->
+    dict(parts=[(dict expr, node, const_loops)], elts=[(element expr, var, stmt)], filtered) or None.
+
+    Accepted: concatenations / chain / [*..] of `D.values()`; comprehensions `[f(v) for v in <array seq>]` and
+    `[f(v) for d in <dict seq> for v in d.values()]`; a local bound to any of these; an accumulator
+    `acc = []` filled by `acc.append(f(v))` / `acc.extend(<array seq>)` inside for loops over a literal
+    sequence of dicts or of constants.
     """
+    if depth > 5:
+        return None
+    got = _expand_iter(L, e, at, {})
+    if got is not None:
+        return dict(parts=[(x, n, ()) for x, n in got], elts=[], filtered=False)
+    if isinstance(e, ast.Call) and isinstance(e.func, ast.Name) and e.func.id in ('list', 'tuple') and \
+            len(e.args) == 1:
+        return array_seq(L, e.args[0], at, st, depth + 1)
+    if isinstance(e, (ast.ListComp, ast.GeneratorExp)):
+        gens = e.generators
+        if len(gens) not in (1, 2) or not all(isinstance(g_.target, ast.Name) for g_ in gens):
+            return None
+        filt = any(g_.ifs for g_ in gens)
+        if len(gens) == 2:      # for d in <sequence of dicts> for v in d.values()
+            seq = dict_seq(L, gens[0].iter, at)
+            if seq is None:
+                return None
+            got = _expand_iter(L, gens[1].iter, at, {gens[0].target.id: [x for x, _ in seq]})
+            if got is None:
+                return None
+            return dict(parts=[(x, n, ()) for x, n in got], elts=[(e.elt, gens[1].target.id, st)], filtered=filt)
+        inner = array_seq(L, gens[0].iter, at, st, depth + 1)
+        if inner is None:
+            return None
+        return dict(parts=inner['parts'], elts=inner['elts'] + [(e.elt, gens[0].target.id, st)],
+                    filtered=filt or inner['filtered'])
+    if not isinstance(e, ast.Name):
+        return None
+    acc = e.id
+    defs = L.rd.defs(at, acc)
+    if len(defs) != 1:
+        return None
+    d0 = next(iter(defs))
+    if not (d0.kind == 'stmt' and isinstance(d0.ast, ast.Assign) and len(d0.ast.targets) == 1 and
+            astx.path(d0.ast.targets[0]) == acc):
+        return None
+    v0 = d0.ast.value
+    if not (isinstance(v0, ast.List) and not v0.elts):
+        return array_seq(L, v0, d0, d0.ast, depth + 1)      # a temporary holding the sequence
+    parts, elts, filtered = [], [], False
+    for s2 in astx.walk_stmts(L.fn.node.body):
+        if s2 is d0.ast or isinstance(s2, (ast.For, ast.If, ast.With, ast.Try, ast.While)):
+            continue
+        if not (isinstance(s2, ast.Expr) and isinstance(s2.value, ast.Call) and
+                isinstance(s2.value.func, ast.Attribute) and astx.path(s2.value.func.value) == acc):
+            if any(isinstance(t, ast.Name) and t.id == acc for t in astx.assigned_targets(s2)
+                   if isinstance(s2, (ast.Assign, ast.AugAssign, ast.Delete))):
+                return None     # the accumulator is rebound / changed in another way
+            continue            # a mere reader
+        if s2.value.func.attr not in ('append', 'extend') or len(s2.value.args) != 1 or not L.g.nodes_of(s2):
+            return None
+        n2 = L.g.nodes_of(s2)[0]
+        loops = []
+        for anc in astx.ancestors(s2):
+            if anc is L.fn.node:
+                break
+            if isinstance(anc, ast.For):
+                loops.append(anc)
+            elif isinstance(anc, (ast.If, ast.While)):
+                filtered = True
+            elif not isinstance(anc, (ast.Try, ast.With)):
+                return None
+        loops.reverse()
+        if any(lp.orelse for lp in loops) or any(isinstance(x, (ast.Break, ast.Continue))
+                                                 for lp in loops for x in astx.walk_stmts(lp.body)):
+            filtered = True
+        arg = s2.value.args[0]
+        outer, consts = {}, []
+        if s2.value.func.attr == 'append':
+            if not loops or not isinstance(loops[-1].target, ast.Name):
+                return None
+            inner_iter, seq_loops = loops[-1].iter, loops[:-1]
+            elts.append((arg, loops[-1].target.id, s2))
+        else:
+            inner_iter, seq_loops = None, loops
+        for lp in seq_loops:
+            if not isinstance(lp.target, ast.Name) or not L.g.nodes_of(lp):
+                return None
+            cs = _const_seq(lp.iter)
+            if cs is not None:
+                consts.append((lp.target.id, tuple(cs)))
+                continue
+            seq = dict_seq(L, lp.iter, L.g.nodes_of(lp)[0])
+            if seq is None or outer:
+                return None
+            outer[lp.target.id] = [x for x, _ in seq]
+        if inner_iter is not None:
+            got = _expand_iter(L, inner_iter, n2, outer)
+            if got is None:
+                return None
+            parts += [(x, n, tuple(consts)) for x, n in got]
+        else:
+            got = _expand_iter(L, arg, n2, outer)
+            if got is not None:
+                parts += [(x, n, tuple(consts)) for x, n in got]
+            else:
+                if outer or consts:
+                    return None
+                inner = array_seq(L, arg, n2, s2, depth + 1)
+                if inner is None:
+                    return None
+                parts += inner['parts']
+                elts += inner['elts']
+                filtered = filtered or inner['filtered']
+    if not parts:
+        return None
+    return dict(parts=parts, elts=elts, filtered=filtered)
+
+
+def residual_parts(L):
+    """How _compute_con_viol builds the flat residual: dict(stmt, parts, elts, filtered) or None."""
     for st in astx.walk_stmts(L.fn.node.body):
         if not (isinstance(st, ast.Return) and isinstance(st.value, ast.Call) and
                 astx.callee_attr(st.value) in ('concatenate', 'hstack') and len(st.value.args) >= 1):
             continue
-        a0 = st.value.args[0]
-        at = L.g.nodes_of(st)[0]
-        if isinstance(a0, (ast.ListComp, ast.GeneratorExp)):
-            gens = a0.generators
-            if len(gens) not in (1, 2) or not all(isinstance(g_.target, ast.Name) for g_ in gens):
-                return None
-            outer = {}
-            if len(gens) == 2:      # for d in <sequence of dicts> for v in d.values()
-                seq = dict_seq(L, gens[0].iter, at)
-                if seq is None:
-                    return None
-                outer[gens[0].target.id] = [x for x, _ in seq]
-            gen = gens[-1]
-            parts = _expand_iter(L, gen.iter, at, outer)
-            if parts is None:
-                return None
-            return dict(stmt=st, parts=parts, elts=[(a0.elt, gen.target.id, st)],
-                        filtered=any(g_.ifs for g_ in gens))
-        if not isinstance(a0, ast.Name):
+        r = array_seq(L, st.value.args[0], L.g.nodes_of(st)[0], st)
+        if r is None:
             return None
-        acc = a0.id
-        defs = L.rd.defs(at, acc)
-        inits = [d for d in defs if d.kind == 'stmt' and isinstance(d.ast, ast.Assign) and
-                 isinstance(d.ast.value, ast.List) and not d.ast.value.elts]
-        if len(defs) != 1 or len(inits) != 1:
-            return None
-        parts, elts, filtered = [], [], False
-        for s2 in astx.walk_stmts(L.fn.node.body):
-            if not astx.mentions(s2, acc) or s2 is st or s2 is inits[0].ast:
-                continue
-            if isinstance(s2, (ast.For, ast.If, ast.With, ast.Try, ast.While)):
-                continue    # visited through walk_stmts
-            if not (isinstance(s2, ast.Expr) and isinstance(s2.value, ast.Call) and
-                    isinstance(s2.value.func, ast.Attribute) and astx.path(s2.value.func.value) == acc and
-                    s2.value.func.attr in ('append', 'extend') and len(s2.value.args) == 1):
-                return None     # the accumulator is used in some other way
-            if not L.g.nodes_of(s2):
-                return None
-            n2 = L.g.nodes_of(s2)[0]
-            loops, outer = [], {}
-            for anc in astx.ancestors(s2):
-                if anc is L.fn.node:
-                    break
-                if isinstance(anc, ast.For):
-                    loops.append(anc)
-                elif isinstance(anc, (ast.If, ast.While)):
-                    filtered = True
-                elif not isinstance(anc, (ast.Try, ast.With)):
-                    return None
-            loops.reverse()
-            arg = s2.value.args[0]
-            if s2.value.func.attr == 'extend':
-                if not (isinstance(arg, (ast.ListComp, ast.GeneratorExp)) and len(arg.generators) == 1 and
-                        isinstance(arg.generators[0].target, ast.Name)):
-                    return None
-                inner_iter, var, elt = arg.generators[0].iter, arg.generators[0].target.id, arg.elt
-                filtered = filtered or bool(arg.generators[0].ifs)
-                seq_loops = loops
-            else:
-                if not loops or not isinstance(loops[-1].target, ast.Name):
-                    return None
-                inner_iter, var, elt = loops[-1].iter, loops[-1].target.id, arg
-                seq_loops = loops[:-1]
-            for lp in seq_loops:
-                seq = dict_seq(L, lp.iter, L.g.nodes_of(lp)[0]) if L.g.nodes_of(lp) else None
-                if not isinstance(lp.target, ast.Name) or seq is None or lp.orelse:
-                    return None
-                outer[lp.target.id] = [x for x, _ in seq]
-            if len(seq_loops) > 1:
-                return None
-            if any(lp.orelse for lp in loops) or any(isinstance(x, (ast.Break, ast.Continue))
-                                                     for lp in loops for x in astx.walk_stmts(lp.body)):
-                filtered = True
-            got = _expand_iter(L, inner_iter, n2, outer)
-            if got is None:
-                return None
-            parts += got
-            elts.append((elt, var, s2))
-        if not parts:
-            return None
-        return dict(stmt=st, parts=parts, elts=elts, filtered=filtered)
+        if not r['elts']:
+            r['elts'] = []
+        return dict(r, stmt=st)
     return None
+
+
+def part_tags(L, p, at, consts):
+    """Ordered lintype tags contributed by one residual part (a part inside loops over constants counts once
+    per iteration; a lintype argument bound to such a loop variable takes its literals)."""
+    if isinstance(p, ast.Constant):
+        tags = [p.value if isinstance(p.value, str) else None]
+        var = None
+    else:
+        call, var = None, None
+        if isinstance(p, ast.Call):
+            call = p
+        elif isinstance(p, ast.Name):
+            vs = L.values(p.id, at)
+            if vs and len(vs) == 1:
+                call = vs[0][0]
+        if not (isinstance(call, ast.Call) and astx.callee_attr(call) == 'get_constraint_values'
+                and not starred(call)):
+            return [None]
+        lt = astx.arg(call, 1, 'lintype')
+        if isinstance(lt, ast.Name) and any(lt.id == v for v, _ in consts):
+            var = lt.id
+            tags = [None]
+        else:
+            tags = ['all' if lt is None else astx.const_str(lt)]
+    out = tags
+    for v, cs in reversed(consts):
+        if v == var:
+            out = [c if isinstance(c, str) else None for c in cs for _ in out] if out == [None] else out
+        else:
+            out = out * len(cs)
+    return out
 
 
 @rule('C22.rows', floor=3)
@@ -1856,8 +1996,8 @@ def rows(repo, out):
     rp = residual_parts(L)
     if rp is not None:
         tags = []
-        for p, at in rp['parts']:
-            tags.append(part_tag(L, p, at))
+        for p, at, consts in rp['parts']:
+            tags += part_tags(L, p, at, consts)
         if tags and None not in tags:
             orders['residual'] = (L.fn, rp['stmt'], tags)
             recog = True
@@ -2434,6 +2574,40 @@ def _comp_residual(literals):
             "                                   for viol in viol_dict.values()])\n")
 
 
+_TEMP_SCALE = ("            val_copy = con_vec[name].copy()\n\n"
+               "            if viol and driver_scaling:\n"
+               "                if meta['total_scaler'] is not None:\n"
+               "                    val_copy *= meta['total_scaler']\n\n"
+               "            con_dict[name] = val_copy\n")
+
+
+def _early_return_helper():
+    return ("    @staticmethod\n    def _val_to_viol(vals, meta):\n"
+            '        """Replace values by violations in place."""\n'
+            "        if meta['equals'] is None:\n"
+            "            lo = np.broadcast_to(meta['lower'], vals.shape)\n"
+            "            hi = np.broadcast_to(meta['upper'], vals.shape)\n"
+            "            below = np.where(vals < lo)[0]\n"
+            "            above = np.where(vals > hi)[0]\n"
+            "            inside = np.where((vals >= lo) & (vals <= hi))[0]\n"
+            "            vals[below] -= lo[below]\n"
+            "            vals[above] -= hi[above]\n"
+            "            vals[inside] = 0.0\n"
+            "            return\n\n"
+            "        vals -= meta['equals']\n\n")
+
+
+def _const_loop_residual(literals):
+    return ("            viol_arrays = []\n"
+            f"            for lintype in {literals}:\n"
+            "                viol_dict = self.get_constraint_values(lintype=lintype,\n"
+            "                                                       driver_scaling=driver_scaling,\n"
+            "                                                       viol=True)\n"
+            "                viol_arrays.extend(viol_dict.values())\n\n"
+            "            flat_viols = [v.ravel() for v in viol_arrays]\n"
+            "            return np.concatenate(flat_viols)\n")
+
+
 def _loop_residual(seq, elt):
     return ("            flat_viols = []\n"
             f"            for viol_dict in {seq}:\n"
@@ -2707,5 +2881,29 @@ selftest(
            "        start = 0\n        for name, meta in chain(lincons.items(), nl_cons.items()):\n"
            "            end = start + (meta['global_size'] if meta['distributed'] else meta['size'])\n"
            "            con_row_map[name] = slice(start, end)\n", 'C22.rows'),
+    # ---- fourth robustness round: early return in the helper, scaling on a temporary, constant-loop residual
+    Twin('twin-helper-early-return', _D, _VIOL_BLOCK, _HELPER_CALL, also=[(_D, _NEXT_DEF, _early_return_helper() + _NEXT_DEF)]),
+    Mutant('early-return-helper-wrong-mask', _D, _VIOL_BLOCK, _HELPER_CALL, 'C22.pair',
+           also=[(_D, _NEXT_DEF, _early_return_helper().replace('vals > hi)', 'vals > lo)') + _NEXT_DEF)]),
+    Mutant('early-return-helper-missing-return', _D, _VIOL_BLOCK, _HELPER_CALL, 'C22.pair',
+           also=[(_D, _NEXT_DEF, _early_return_helper().replace('            return\n', '') + _NEXT_DEF)]),
+    Twin('twin-scale-temporary', _D, _STORE + "\n" + _SCALE, _TEMP_SCALE),
+    Mutant('scale-temporary-guard-no-flag', _D, _STORE + "\n" + _SCALE, _TEMP_SCALE.replace('if viol and driver_scaling:', 'if viol:'),
+           'C22.scale'),
+    Mutant('scale-temporary-adder', _D, _STORE + "\n" + _SCALE,
+           _TEMP_SCALE.replace("val_copy *= meta['total_scaler']", "val_copy += meta['total_scaler']"), 'C22.scale'),
+    Mutant('temporary-copied-too-early', _D, _STORE + "\n" + _SCALE, _TEMP_SCALE.replace("            val_copy = con_vec[name].copy()\n", ''),
+           'C22.result', also=[(_D, "            if viol:\n                con_val = con_vec[name]\n",
+                                "            val_copy = con_vec[name].copy()\n            if viol:\n                con_val = con_vec[name]\n")]),
+    Twin('twin-residual-const-loop-extend', _D, _LIN_CALL + "\n" + _NL_CALL + "\n" + _RETURN_CONCAT,
+         _const_loop_residual("('linear', 'nonlinear')")),
+    Mutant('const-loop-residual-swapped', _D, _LIN_CALL + "\n" + _NL_CALL + "\n" + _RETURN_CONCAT,
+           _const_loop_residual("('nonlinear', 'linear')"), 'C22.rows'),
+    Mutant('const-loop-residual-conditional', _D, _LIN_CALL + "\n" + _NL_CALL + "\n" + _RETURN_CONCAT,
+           _const_loop_residual("('linear', 'nonlinear')").replace(
+               "                viol_arrays.extend(", "                if lintype == 'linear':\n                    viol_arrays.extend("),
+           'C22.lsq'),
+    Mutant('const-loop-residual-abs', _D, _LIN_CALL + "\n" + _NL_CALL + "\n" + _RETURN_CONCAT,
+           _const_loop_residual("('linear', 'nonlinear')").replace('[v.ravel() for', '[np.abs(v.ravel()) for'), 'C22.lsq'),
     Twin('twin-select-positional', _D, "it = filter_by_meta(it, 'linear', exclude=True)", "it = filter_by_meta(it, 'linear', False, True)"),
 )
